@@ -23,7 +23,20 @@ func genEvalFlavor(stream, flavor string, nQuick, nThorough int) func(r *h.Rand,
 
 func init() {
 	h.RegisterProp(&h.Prop{ID: "C01", Gen: genEvalFlavor("eval", "escape", 600, 20000)})
-	h.RegisterProp(&h.Prop{ID: "C05", Gen: genEvalFlavor("eval", "control", 600, 20000)})
+	c05 := genEvalFlavor("eval", "control", 600, 20000)
+	h.RegisterProp(&h.Prop{ID: "C05", Gen: func(r *h.Rand, tier string) []h.Case {
+		cs := c05(r, tier)
+		n := 150
+		if tier == "search" {
+			n = 600
+		} else if tier != "quick" {
+			n = 3000
+		}
+		for i := 0; i < n; i++ {
+			cs = append(cs, genRangerCase(r))
+		}
+		return cs
+	}})
 	h.RegisterProp(&h.Prop{ID: "C07", Gen: genEvalFlavor("eval", "scope", 600, 20000)})
 	h.RegisterProp(&h.Prop{ID: "C09", Gen: genEvalFlavor("eval", "include", 600, 20000)})
 	h.RegisterProp(&h.Prop{ID: "C12", Gen: genEvalFlavor("eval", "errors", 600, 20000)})
